@@ -143,6 +143,9 @@ def _havoc_value(cur, name, spec):
         return OpaqueDict(name)
     if isinstance(cur, OpaqueList):
         return cur
+    if isinstance(cur, core.FloatExpr):
+        # an arbitrary float: an uninterpreted expression equal to nothing but itself
+        return core.FloatExpr("havocked", (SymInt(E.fresh_int(name)),))
     if cur is None or isinstance(cur, (Obj, tuple, str, float)):
         # assigned in the body with an unknown value: only a spec'ed havoc can give it a shape
         return Havocked(name)
